@@ -8,8 +8,20 @@ NOTES = ("Technique family: model-based verification with explicit TLA+ specific
 NOT_APPLICABLE = {}
 MC_NOTE = ("Trusted base: TLC, the Go harness' projection (harness/world/project.go), memdb backend only (MongoDB paths cannot "
            "run here), hooks of build tag verif. Verdicts come only from invariants evaluated by TLC on traces recorded from the real code.")
+TV = "TLA+ system spec (Yorkie.tla) generates behaviours with TLC; executed on the real client/server stack; recorded traces validated by TLC against YorkieTrace.tla"
+
+def mc(text):
+    return {"level": "model_checking", "text": text, "note": MC_NOTE, "technique": TV}
+
 CHECKS = {
-    "C01": {"level": "model_checking",
-            "text": "Yorkie.tla enumerates (exhaustively for pairs, by simulation beyond) histories x sync schedules; each is executed on the real client/server stack and TLC validates the recorded trace against YorkieTrace.tla, evaluating Converged / SyncNeverFails / LogReplayable after every event.",
-            "note": MC_NOTE, "technique": "TLA+ spec + TLC behaviour generation + trace validation"},
+    "C01": mc("Yorkie.tla enumerates exhaustively every pair of concurrent edits (per container type) x every placement of syncs; each behaviour is executed on the real stack and TLC evaluates Converged / SyncNeverFails / LogReplayable / CloneEqRoot on the recorded trace after every event. Thorough tier runs the whole enumeration plus simulated longer histories."),
+    "C02": mc("Behaviours with snapshot thresholds/intervals 1..4, late attachers, cache builds/evictions; TLC checks on the trace that snapshot-fed replicas and the server rebuild equal the same-run change-fed, never-collected reference (RefEquiv, BuildEquiv) after every event, also after further edits on top. A run that served no snapshot is inconclusive (exit 2)."),
+    "C03": mc("GC-biased histories (deletes, moves, overwrites, style removals, anchored inserts, idle syncs) with client GC and server snapshot GC on; TLC compares every synced replica with the never-collecting reference (RefEquiv) and checks that no sync / rebuild / log replay fails. Purges that actually happened are counted in evidence."),
+    "C04": mc("Sequential schedules (incl. detach/reattach, push-only, late attach, snapshot pulls): TLC checks on every PushPull event that appended rows are dense, belong to the requester, equal the spec's Pushables exactly once, pulled ranges match the log, in order, echo-free, delivered once, no gap below checkpoints; plus exhaustive TLC check of the same invariants on the protocol model (mc_proto.cfg). Concurrent schedules: see C16."),
+    "C06": mc("Clock rules as constraints on logged change ids: OwnEntry, UniqueTicket, AuthorMonotone, Causal (ghost 'seen' state per replica computed by the spec from delivered rows) and MinVVSound against the LOGGED request vectors of the attached participating clients; exhaustive check of RowSound/OwnEntry/UniqueTicket on the protocol model."),
+    "C08": mc("Programs with updaters failing or panicking after the operation ran on the clone; TLC checks UpdateAtomic (content, pending changes, checkpoint, vector, undo/redo flags unchanged) and CloneEqRoot (Root() == Marshal()) after every event of every kind."),
+    "C10": mc("Histories with (forced) compactions, stale clients syncing/detaching, fresh attaches; TLC checks CompactionKeepsContent (reference of the new epoch equals the content before), StaleAddsNoRows, StaleRefused, EpochStrictlyIncreases, CompactRefusedWhileAttached, CompactNeverFailsOnContent. A run without a successful compaction is inconclusive."),
+    "C11": mc("Lifecycle histories (detach, reattach, remove, deactivate, push-only) generated from the spec's state machine; TLC checks WriteOnlyWhenActive/Attached, RemovedStoresNothing, RemovedIsSticky, Detach/RemoveTakesEffect, DeactivateDetachesAll/NeverFails on the trace."),
+    "C12": mc("Presence sets mixed with edits, attach/detach/deactivate, snapshot pulls, presence-disabled documents incl. a disagreeing late attacher; TLC checks PresenceConverged against the reference, NoPresenceRows / NoPresenceInResponses / NoPresenceInSnapshots."),
+    "C15": mc("Undo/redo mixed with edits and syncs on two clients (arrays without moves, counters); TLC checks Converged, RefEquiv, SyncNeverFails, UndoRedoNeverFails. Object/text/tree/move undo under concurrency are listed known findings (reproducers re-run on every check)."),
 }
